@@ -13,6 +13,7 @@ import (
 	"path/filepath"
 	"strings"
 	"sync"
+	"time"
 
 	"golang.org/x/crypto/ocsp"
 
@@ -63,7 +64,7 @@ func main() {
 	var cfgs []cfgKey
 	for _, m := range []string{"", "prefer_ocsp", "prefer_crl", "ocsp_only"} {
 		for _, s := range []bool{false, true} {
-			for _, c := range []string{"", "1h"} {
+			for _, c := range []string{"", "1h", "nextUpdate"} {
 				cfgs = append(cfgs, cfgKey{m, s, c})
 			}
 		}
@@ -117,11 +118,17 @@ func main() {
 	var mu sync.Mutex
 	behaviourOf := map[string]string{} // path -> behaviour
 	w.OCSP.SetDefault(origin.Func(func(req []byte) (int, []byte) { return 500, []byte("unset") }))
-	mkBehaviour := func(b string) origin.Behaviour {
+	mkBehaviour := func(b string, withNextUpdate bool) origin.Behaviour {
 		switch b {
 		case "good", "revoked", "unknown":
 			st := map[string]int{"good": ocsp.Good, "revoked": ocsp.Revoked, "unknown": ocsp.Unknown}[b]
-			return world.Responder(w.Int, nil, nil, func(*big.Int) world.OCSPStatus { return world.OCSPStatus{Status: st} })
+			return world.Responder(w.Int, nil, nil, func(*big.Int) world.OCSPStatus {
+				s := world.OCSPStatus{Status: st}
+				if withNextUpdate {
+					s.NextUpdate = time.Now().Add(time.Hour)
+				}
+				return s
+			})
 		case "other-serial-revoked", "other-serial-good":
 			st := ocsp.Revoked
 			if b == "other-serial-good" {
@@ -152,7 +159,12 @@ func main() {
 		workDir := filepath.Join(scratch, fmt.Sprintf("wd%d", ci))
 		_ = os.MkdirAll(workDir, 0755)
 		cfg := sut.CRLCfg(workDir, "memory", "verify", "fetch_actively", false, "")
-		v, err := sut.Provision(sut.Config{Mode: k.Mode, CRL: cfg, OCSP: &config.OCSPConfig{OCSPAIAStrict: k.Strict, DefaultCacheDuration: k.Cache}})
+		dur := k.Cache
+		if dur == "nextUpdate" {
+			dur = "" // no default duration: entries live until the responses' nextUpdate (+ skew)
+		}
+		intPEM := pki.WritePEM(filepath.Join(scratch, fmt.Sprintf("int-%d.pem", si)), w.Int.Cert)
+		v, err := sut.Provision(sut.Config{Mode: k.Mode, CRL: cfg, OCSP: &config.OCSPConfig{OCSPAIAStrict: k.Strict, DefaultCacheDuration: dur, TrustedResponderCertsFiles: []string{intPEM}}})
 		if err != nil {
 			run.Violation("provision-failed", fmt.Sprintf("%+v: %v", k, err), nil)
 			continue
@@ -175,7 +187,7 @@ func main() {
 					aia = append(aia, tlsSrv.URL+"/ocsp")
 					paths = append(paths, "")
 				default:
-					w.OCSP.Set(p, mkBehaviour(b))
+					w.OCSP.Set(p, mkBehaviour(b, k.Cache == "nextUpdate"))
 					aia = append(aia, w.OCSP.URL(p))
 					paths = append(paths, p)
 				}
@@ -184,7 +196,20 @@ func main() {
 			chain := w.Leaf(serial, nil, aia)
 			desc := fmt.Sprintf("mode=%q strict=%v cache=%q responders=[%s]", k.Mode, k.Strict, k.Cache, strings.Join(list, ","))
 			hitsBefore := countHits(w.OCSP, prefix)
-			err1 := v.Verify(chain)
+			var chains [][]*x509.Certificate
+			shape := []string{"leaf-int-root", "leaf-int", "leaf-only", "two-chains"}[li%4]
+			switch shape {
+			case "leaf-int":
+				chains = [][]*x509.Certificate{chain[:2]}
+			case "leaf-only":
+				chains = [][]*x509.Certificate{chain[:1]}
+			case "two-chains":
+				chains = [][]*x509.Certificate{chain, chain[:2]}
+			default:
+				chains = [][]*x509.Certificate{chain}
+			}
+			desc += " chain=" + shape
+			err1 := v.Verify(chains...)
 			hits1 := countHits(w.OCSP, prefix) - hitsBefore
 			wantReject, decisive := expectFresh(list, k.Strict)
 			run.Eval(1)
@@ -202,7 +227,7 @@ func main() {
 				}
 			}
 			h2 := countHits(w.OCSP, prefix)
-			err2 := v.Verify(chain)
+			err2 := v.Verify(chains...)
 			hits2 := countHits(w.OCSP, prefix) - h2
 			nHTTP := 0
 			for _, b := range list {
